@@ -1,11 +1,16 @@
 /- Tie T, one fact per module so that a change of one textual fact breaks only the properties that rest on it (see CosetProofs/Ties.lean). -/
-import CosetGen.Iana
-import CosetGen.Facts
-import CosetGen.Inventory
-import CosetRef.PinnedFacts
+import CosetProofs.Ties.PanicSites
 namespace Coset.Ties
 
-/-- F8: the integer conversion sites (`try_into`, `try_from`, `as iN/uN`, `Value::from` / `.into()`) per function. -/
-theorem narrowing_sites : Gen.narrowingSites = Pinned.narrowingSites := by rfl
+/-- the conversions that can lose or refuse a value: `as <int/float type>`, `try_into`, `try_from` (the lossless `From` / `.into()`
+    widenings are inventoried too, but moving them around is not a change of meaning). -/
+def lossy (l : List (String × String × String × Nat)) : List (String × String × String × Nat) :=
+  l.filter fun x => x.2.2.1 != "from"
+
+/-- F8: the integer conversion sites per function: the current source has **no lossy or checked conversion beyond those of the
+    transcribed tree** (a new `as`, a `try_into` in a function that had none, one more of a kind in a function: breaks this; a
+    conversion that went away does not — whatever replaced it is itself a site, or the decoder no longer narrows there and the
+    correspondence on the boundary lattice of C15 decides). -/
+theorem narrowing_sites : sitesCovered (lossy Gen.narrowingSites) (lossy Pinned.narrowingSites) = true := by decide +kernel
 
 end Coset.Ties
